@@ -56,7 +56,7 @@ ASSUMPTIONS = [
 ]
 
 
-C05_KEYS = ("value", "accepted_nonconforming", "matrix_shape_vs_construction")
+C05_KEYS = ("value", "adjoint_value", "accepted_nonconforming", "matrix_shape_vs_construction")
 
 
 def _inputs(rng, n, cplx, k=2):
